@@ -1,6 +1,7 @@
 package rt
 
 import (
+	"bufio"
 	"bytes"
 	"fmt"
 	"io"
@@ -37,7 +38,7 @@ type RespPlan struct {
 	Status      int
 	Fields      [][2]string
 	Body        []byte
-	Stream      int // 0 buffered; 1 SetBodyStream with declared size; 2 SetBodyStream with size -1
+	Stream      int // 0 buffered; 1 SetBodyStream with declared size; 2 SetBodyStream with size -1; 3 SetBodyStreamWriter (fasthttp runs the writer on a goroutine of its own)
 	ReadChunk   int // body reader hands out at most this many bytes per Read (0: as much as asked)
 	EOFWithLast bool
 	Gate        chan struct{}
@@ -209,6 +210,23 @@ func (h *Harness) Handle(ctx *fasthttp.RequestCtx) {
 		ctx.Response.SetBodyStream(&chunkReader{b: plan.Body, chunk: plan.ReadChunk, eofWithLast: plan.EOFWithLast}, len(plan.Body))
 	case 2:
 		ctx.Response.SetBodyStream(&chunkReader{b: plan.Body, chunk: plan.ReadChunk, eofWithLast: plan.EOFWithLast}, -1)
+	case 3:
+		body, chunk := plan.Body, plan.ReadChunk
+		if chunk <= 0 {
+			chunk = 4096
+		}
+		ctx.Response.SetBodyStreamWriter(func(w *bufio.Writer) {
+			for len(body) > 0 {
+				n := min(chunk, len(body))
+				if _, err := w.Write(body[:n]); err != nil {
+					return
+				}
+				if err := w.Flush(); err != nil {
+					return
+				}
+				body = body[n:]
+			}
+		})
 	}
 }
 
